@@ -321,6 +321,13 @@ def _k_blocks(depth: int, in_loop: bool, tier: str) -> Iterator[List[str]]:
             yield [f"k{depth} = 0", f"while k{depth} < 2:", f"    k{depth} += 1", "    w = x + 1"] + common.indent(inner)
             yield ["if x < y or x >= y:", "    w = x + 1"] + common.indent(inner)
             yield [f"for i{depth} in range(2):"] + common.indent(inner) + ["    w = x + 1"]
+    # a variable first assigned in a branch inside a loop keeps its value over the following iterations
+    if depth >= 1:
+        yield [f"for i{depth} in range(3):", f"    if i{depth} == 0:", "        w = x + 1", "    mon.write(w)"]
+        yield [f"for i{depth} in range(3):", f"    if i{depth} == 0:", "        w = x + 1", f"    elif i{depth} == 1:", "        w = w + 10", "    mon.write(w)"]
+        yield [f"k{depth} = 0", f"while k{depth} < 3:", f"    k{depth} += 1", f"    if k{depth} == 1:", "        w = y", "    mon.write(w)", "    w = w + 1"]
+        yield [f"for i{depth} in range(2):", f"    for j{depth} in range(2):", f"        if j{depth} == 0 and i{depth} == 0:", "            w = 7", "        mon.write(w)", "        w += 1"]
+        yield [f"for i{depth} in range(3):", "    try:", f"        if i{depth} == 0:", "            w = x", "    except:", "        pass", "    mon.write(w)"]
     for tmpl in K_LOOPVAR:
         lv = [ln.replace("{d}", str(depth)) for ln in tmpl]
         yield [f"for i{depth} in range(3):"] + common.indent(lv + [f"mon.write(i{depth})"])
@@ -363,6 +370,8 @@ F_DEFS = {
     "bump": ["def bump():", "    global x", "    x = x + 1"],
     "docfn": ["def docfn(v):", '    """Report the value', '    on the serial line."""', "    mon.write(v)", "    return v + 1"],
     "docfn2": ["def docfn2(v):", "    \'\'\'one", "    two", "    three\'\'\'", "    v = v * 2", "    return v"],
+    "shadow": ["def shadow(v):", "    x = v + 1", "    y = x * 2", "    return y"],
+    "shadow_loop": ["def shadow_loop(v):", "    x = 0", "    for y in range(3):", "        x += v", "    return x"],
     "setg": ["def setg():", "    global g", "    g = 120"],
     "noisy": ["def noisy(v):", "    mon.write(v)", "    return v + 1"],
     "bump2": ["def bump2():", "    global x, y", "    x = x + 1", "    y = y + 2"],
@@ -391,6 +400,9 @@ F_CALLS = [
     (["inc"], ["mon.write(max(inc(a), b))"]),
     (["inc", "add"], ["if inc(a) > b:", "    x = add(a, b)"]),
     (["bump"], ["bump()", "bump()"]),
+    (["shadow"], ["mon.write(shadow(a))", "mon.write(x)", "mon.write(y)"]),
+    (["shadow_loop"], ["x = x + shadow_loop(b)"]),
+    (["shadow", "bump"], ["bump()", "mon.write(shadow(x))", "bump()"]),
     (["docfn"], ["x = docfn(a)"]),
     (["docfn2"], ["mon.write(docfn2(b))"]),
     (["setg"], ["setg()", "g = 200", "mon.write(g)"]),          # the helper assigns the global before its first top-level assignment
